@@ -31,14 +31,17 @@ variable [Add K] [NatCast K]
 
 /-- `append`, accepted: exactly one pair is added at the end (time as given, or the default
 `last + 1` / `0`); rejected: stored pairs and mode untouched -/
-theorem append_cases (s : Store K F) (fi : FieldInfo) (t : Option K) (f : F) :
-    ((append s fi t f).2 = none ∧
-      (append s fi t f).1.times = s.times ++ [t.getD (defaultTime s.times)] ∧
-      (append s fi t f).1.frames = s.frames ++ [f] ∧ (append s fi t f).1.mode = s.mode) ∨
-    ((append s fi t f).2 ≠ none ∧ (append s fi t f).1.times = s.times ∧
-      (append s fi t f).1.frames = s.frames ∧ (append s fi t f).1.mode = s.mode) := by
-  unfold append appendData
-  cases hg : s.grid <;> cases hd : s.dataShape <;> cases t <;> simp <;> split_ifs <;> simp
+theorem append_cases (s : Store K F) (fi : FieldInfo) (t : Option K) (f : F) (c : Bool) :
+    ((append s fi t f c).2 = none ∧
+      (append s fi t f c).1.times = s.times ++ [t.getD (defaultTime s.times)] ∧
+      (append s fi t f c).1.frames = s.frames ++ [f] ∧ (append s fi t f c).1.mode = s.mode) ∨
+    ((append s fi t f c).2 ≠ none ∧ (append s fi t f c).1.times = s.times ∧
+      (append s fi t f c).1.frames = s.frames ∧ (append s fi t f c).1.mode = s.mode) := by
+  unfold append appendCast appendData
+  by_cases hm : s.mode = Mode.readonly
+  · simp [hm]
+  · simp only [hm, if_false]
+    cases hg : s.grid <;> cases hd : s.dataShape <;> cases t <;> simp <;> split_ifs <;> simp
 
 /-! ### the specification: the list of appended pairs of the surviving sessions -/
 
@@ -60,7 +63,7 @@ def Spec.step (sp : Spec K F) (op : SOp K F) (accepted : Bool) : Spec K F :=
   if accepted then
     match op with
     | .start _ => { sp with log := if sp.truncates then [] else sp.log, fresh := false }
-    | .append _ t f => { sp with log := sp.log ++ [(t.getD (defaultTime (sp.log.map Prod.fst)), f)] }
+    | .append _ t f _ => { sp with log := sp.log ++ [(t.getD (defaultTime (sp.log.map Prod.fst)), f)] }
     | .endW => sp
     | .clear _ => { sp with log := [] }
     | .setMode m => { sp with mode := m, fresh := true }
@@ -85,6 +88,9 @@ theorem runBoth_fst (s : Store K F) (sp : Spec K F) (ops : List (SOp K F)) :
   induction ops generalizing s sp with
   | nil => rfl
   | cons op ops ih => simp [runBoth, srun, ih]
+
+theorem srun_cons' (o : Store K F) (op : SOp K F) (ops : List (SOp K F)) :
+    srun o (op :: ops) = srun (sstep o op).1 ops := rfl
 
 theorem contents_times (s : Store K F) (h : s.times.length = s.frames.length) :
     s.contents.map Prod.fst = s.times := by
@@ -123,17 +129,17 @@ theorem refines_step (s : Store K F) (sp : Spec K F) (op : SOp K F) (h : Refines
       simp only [this, Spec.step]
       exact ⟨by rw [ht, hf]; exact hlen, by unfold Store.contents at hc ⊢; rw [ht, hf]; exact hc,
         by rw [hmd]; exact hm⟩
-  | append fi t f =>
+  | append fi t f c =>
     simp only [sstep]
-    rcases append_cases s fi t f with ⟨he, ht, hf, hmd⟩ | ⟨he, ht, hf, hmd⟩
+    rcases append_cases s fi t f c with ⟨he, ht, hf, hmd⟩ | ⟨he, ht, hf, hmd⟩
     · simp only [he, Option.isNone_none, Spec.step, if_true]
       refine ⟨by rw [ht, hf]; simp [hlen], ?_, by rw [hmd]; exact hm⟩
       unfold Store.contents; rw [ht, hf, htimes]
       rw [List.zip_append (by exact hlen)]
       unfold Store.contents at hc
       rw [hc]; rfl
-    · have : (append s fi t f).2.isNone = false := by
-        cases h : (append s fi t f).2 with
+    · have : (append s fi t f c).2.isNone = false := by
+        cases h : (append s fi t f c).2 with
         | none => exact absurd h he
         | some e => rfl
       simp only [this, Spec.step]
@@ -176,11 +182,14 @@ theorem wf_startWriting (s : Store K F) (fi : FieldInfo) (h : WF s) : WF (startW
   cases hm : s.mode <;> cases hd : s.dataShape <;> simp [clear, WF] <;>
     (try split_ifs) <;> simp_all [WF]
 
-theorem wf_append (s : Store K F) (fi : FieldInfo) (t : Option K) (f : F) (h : WF s) :
-    WF (append s fi t f).1 := by
+theorem wf_append (s : Store K F) (fi : FieldInfo) (t : Option K) (f : F) (c : Bool) (h : WF s) :
+    WF (append s fi t f c).1 := by
   obtain ⟨h1, h2, h3⟩ := h
-  unfold append appendData
-  cases hg : s.grid <;> cases hd : s.dataShape <;> simp [WF] <;> (try split_ifs) <;> simp_all [WF]
+  unfold append appendCast appendData
+  by_cases hm : s.mode = Mode.readonly
+  · simp only [hm, if_true]; exact ⟨h1, h2, h3⟩
+  · simp only [hm, if_false]
+    cases hg : s.grid <;> cases hd : s.dataShape <;> simp [WF] <;> (try split_ifs) <;> simp_all [WF]
 
 theorem wf_clear (s : Store K F) (b : Bool) (h : WF s) : WF (clear s b) := by
   obtain ⟨h1, h2, h3⟩ := h
@@ -189,7 +198,7 @@ theorem wf_clear (s : Store K F) (b : Bool) (h : WF s) : WF (clear s b) := by
 theorem wf_sstep (s : Store K F) (op : SOp K F) (h : WF s) : WF (sstep s op).1 := by
   cases op with
   | start fi => exact wf_startWriting s fi h
-  | append fi t f => exact wf_append s fi t f h
+  | append fi t f c => exact wf_append s fi t f c h
   | endW => exact h
   | clear b => exact wf_clear s b h
   | setMode m => exact h
@@ -425,14 +434,19 @@ theorem start_accepted_iff (s : Store K F) (fi : FieldInfo) :
   unfold startWriting baseStart
   cases hm : s.mode <;> cases hd : s.dataShape <;> simp [clear] <;> split_ifs <;> simp_all
 
-/-- exactly when `append` is accepted: the grid is unknown or equal and the data shape is the
-known one.  The write mode plays no role. -/
-theorem append_accepted_iff (s : Store K F) (fi : FieldInfo) (t : Option K) (f : F) :
-    (append s fi t f).2 = none ↔
-      (s.grid = none ∨ s.grid = some fi.grid) ∧ s.dataShape = some fi.shape := by
-  unfold append appendData
-  cases hg : s.grid <;> cases hd : s.dataShape <;> simp <;> split_ifs <;> simp_all <;>
-    (try (intro h; exact absurd h.symm ‹_›))
+/-- exactly when `append` is accepted: not in `readonly` mode, the grid is unknown or equal,
+numpy can cast the data to the dtype of the storage (if one is set) and the data shape is the
+known one -/
+theorem append_accepted_iff (s : Store K F) (fi : FieldInfo) (t : Option K) (f : F) (c : Bool) :
+    (append s fi t f c).2 = none ↔
+      s.mode ≠ .readonly ∧ (s.grid = none ∨ s.grid = some fi.grid) ∧
+      (s.dtypeSet = true → c = true) ∧ s.dataShape = some fi.shape := by
+  unfold append appendCast appendData
+  by_cases hm : s.mode = Mode.readonly
+  · simp [hm]
+  · simp only [hm, if_false]
+    cases hg : s.grid <;> cases hd : s.dataShape <;> cases hdt : s.dtypeSet <;> cases c <;>
+      simp <;> (try split_ifs) <;> simp_all <;> (try (intro h; exact absurd h.symm ‹_›))
 
 /-- mode `truncate`: every accepted session start empties the storage; the mode stays -/
 theorem mode_truncate (s : Store K F) (fi : FieldInfo) (hm : s.mode = .truncate)
@@ -479,8 +493,8 @@ theorem rejected_keeps_contents (s : Store K F) (op : SOp K F) (h : (sstep s op)
     rcases startWriting_cases s fi with ⟨he, _⟩ | ⟨_, ht, hf, hmd⟩
     · exact absurd he h
     · exact ⟨by simp [sstep, Store.contents, ht, hf], by simp [sstep, hmd]⟩
-  | append fi t f =>
-    rcases append_cases s fi t f with ⟨he, _⟩ | ⟨_, ht, hf, hmd⟩
+  | append fi t f c =>
+    rcases append_cases s fi t f c with ⟨he, _⟩ | ⟨_, ht, hf, hmd⟩
     · exact absurd he h
     · exact ⟨by simp [sstep, Store.contents, ht, hf], by simp [sstep, hmd]⟩
   | endW => simp [sstep] at h
@@ -511,8 +525,8 @@ theorem append_mode_never_truncates (ops : List (SOp K F)) :
       | start fi =>
         rcases startWriting_cases s fi with ⟨_, _, ht, hf, hmd⟩ | ⟨_, ht, hf, hmd⟩ <;>
           simp [sstep, Store.contents, ht, hf, hmd, hm, hlen]
-      | append fi t f =>
-        rcases append_cases s fi t f with ⟨_, ht, hf, hmd⟩ | ⟨_, ht, hf, hmd⟩
+      | append fi t f c =>
+        rcases append_cases s fi t f c with ⟨_, ht, hf, hmd⟩ | ⟨_, ht, hf, hmd⟩
         · refine ⟨?_, by simp [sstep, hmd, hm], by simp [sstep, ht, hf, hlen]⟩
           simp only [sstep, Store.contents, ht, hf]
           rw [List.zip_append hlen]
@@ -556,36 +570,73 @@ theorem truncate_once_then_append (s : Store K F) (fi : FieldInfo) (hm : s.mode 
   exact (append_mode_never_truncates (ops.drop n) _ p2 hlen'
     (fun o ho => hk o (List.mem_of_mem_drop ho))).1
 
-/-- **readonly, what holds** (`readonly_rejects` is the session start).  Full statement that
-the documentation suggests and that is FALSE for the code and therefore for the model:
-`s.mode = .readonly → ∀ op, (sstep s op).1.contents = s.contents` ("'readonly' will disable
-writing completely").  What holds: every operation except `append`, `clear` and a mode change
-leaves a readonly storage untouched; `readonly_append_accepted` is the counterexample. -/
-theorem readonly_frozen_partial (s : Store K F) (hm : s.mode = .readonly) (op : SOp K F)
-    (h1 : ∀ fi t f, op ≠ .append fi t f) (h2 : ∀ b, op ≠ .clear b) (h3 : ∀ m, op ≠ .setMode m) :
-    (sstep s op).1 = s := by
+/-- mode `readonly`: `append` raises `RuntimeError` and changes nothing at all (since fd5b417) -/
+theorem readonly_rejects_append (s : Store K F) (fi : FieldInfo) (t : Option K) (f : F) (c : Bool)
+    (hm : s.mode = .readonly) : append s fi t f c = (s, some .runtime) := by
+  unfold append; simp [hm]
+
+/-- **readonly disables writing completely** (single operation): `start_writing`, `append` and
+`end_writing` leave a readonly storage exactly as it is.  (`clear()` is not a write: it is the
+explicit request to drop the data, and a mode change ends the readonly state.) -/
+theorem readonly_frozen (s : Store K F) (hm : s.mode = .readonly) (op : SOp K F)
+    (h2 : ∀ b, op ≠ .clear b) (h3 : ∀ m, op ≠ .setMode m) :
+    (sstep s op).1 = s ∧ (op ≠ .endW → (sstep s op).2 = some .runtime) := by
   cases op with
   | start fi => simp [sstep, readonly_rejects s fi hm]
-  | append fi t f => exact absurd rfl (h1 fi t f)
-  | endW => rfl
+  | append fi t f c => simp [sstep, readonly_rejects_append s fi t f c hm]
+  | endW => simp [sstep]
   | clear b => exact absurd rfl (h2 b)
   | setMode m => exact absurd rfl (h3 m)
 
-/-- counterexample to the full readonly statement, on the model (the harness replays it on the
-real code): a storage that knows its data shape accepts `append` in `readonly` mode -/
-theorem readonly_append_accepted (s : Store K F) (fi : FieldInfo) (t : K) (f : F)
+/-- **readonly disables writing completely** (every operation sequence): as long as the mode
+is not changed, nothing can ever be added to a readonly storage - its pairs stay what they are
+or, after an explicit `clear()`, are gone; the mode stays `readonly` -/
+theorem readonly_disables_writing (ops : List (SOp K F)) :
+    ∀ s : Store K F, s.mode = .readonly → (∀ op ∈ ops, ∀ m, op ≠ .setMode m) →
+      (srun s ops).mode = .readonly ∧
+      ((srun s ops).contents = s.contents ∨ (srun s ops).contents = []) := by
+  induction ops with
+  | nil => intro s hm _; exact ⟨hm, Or.inl rfl⟩
+  | cons op ops ih =>
+    intro s hm hops
+    have hops' : ∀ o ∈ ops, ∀ m, o ≠ .setMode m := fun o ho => hops o (by simp [ho])
+    by_cases hc : ∃ b, op = .clear b
+    · obtain ⟨b, rfl⟩ := hc
+      have hm' : (sstep s (.clear b)).1.mode = .readonly := by simp [sstep, clear, hm]
+      obtain ⟨e1, e2⟩ := ih _ hm' hops'
+      refine ⟨e1, Or.inr ?_⟩
+      have h0 : (sstep s (SOp.clear b)).1.contents = [] := by simp [sstep, clear, Store.contents]
+      rcases e2 with e2 | e2
+      · rw [srun_cons', e2, h0]
+      · rw [srun_cons', e2]
+    · have hfz := (readonly_frozen s hm op (fun b h0 => hc ⟨b, h0⟩) (hops op (by simp))).1
+      rw [srun_cons', hfz]
+      exact ih s hm hops'
+
+/-- the behaviour BEFORE fd5b417 (`StorageBase.append` without the read-only check and without
+the dtype rule), kept only to state what the regression legs of the harness guard against -/
+def appendOld (s : Store K F) (fi : FieldInfo) (time : Option K) (frame : F) :
+    Store K F × Option Err :=
+  let t := match time with
+    | some t => t
+    | none => defaultTime s.times
+  match s.grid with
+  | none => appendData { s with grid := some fi.grid } fi t frame
+  | some g => if g ≠ fi.grid then (s, some .value) else appendData s fi t frame
+
+/-- witness about the OLD code: a storage that knows its data shape accepted `append` in
+`readonly` mode (finding C20/1, repaired by fd5b417; `readonly_rejects_append` is the new code) -/
+theorem appendOld_readonly_accepted (s : Store K F) (fi : FieldInfo) (t : K) (f : F)
     (hm : s.mode = .readonly) (hlen : s.times.length = s.frames.length)
     (hs : s.dataShape = some fi.shape) (hg : s.grid = some fi.grid) :
-    (append s fi (some t) f).2 = none ∧
-      (append s fi (some t) f).1.contents = s.contents ++ [(t, f)] ∧
-      (append s fi (some t) f).1.mode = .readonly := by
-  have ha : (append s fi (some t) f).2 = none :=
-    (append_accepted_iff s fi (some t) f).mpr ⟨Or.inr hg, hs⟩
-  rcases append_cases s fi (some t) f with ⟨_, ht, hf, hmd⟩ | ⟨he, _⟩
-  · refine ⟨ha, ?_, by rw [hmd, hm]⟩
-    simp only [Store.contents, ht, hf, Option.getD_some]
-    rw [List.zip_append hlen]; rfl
-  · exact absurd ha he
+    (appendOld s fi (some t) f).2 = none ∧
+      (appendOld s fi (some t) f).1.contents = s.contents ++ [(t, f)] ∧
+      (appendOld s fi (some t) f).1.mode = .readonly := by
+  unfold appendOld appendData
+  simp only [hg, hs, ne_eq, not_true_eq_false, if_false]
+  refine ⟨trivial, ?_, hm⟩
+  simp only [Store.contents]
+  rw [List.zip_append hlen]; rfl
 
 end
 
@@ -1098,65 +1149,71 @@ theorem pairsOf_range (times : List K) (nf : List F) :
   have := pairsOf_range' times [] nf
   simpa [List.range_eq_range'] using this
 
-/-- an accepted `start_writing` leaves the storage ready for appends of fields like `fi` -/
+/-- a storage that accepts appends of fields described by `fi'` (up to the dtype rule) -/
+def Ready (o : Store K F) (fi' : FieldInfo) : Prop :=
+  o.mode ≠ .readonly ∧ o.grid = some fi'.grid ∧ o.dataShape = some fi'.shape
+
+/-- an accepted `start_writing` leaves the storage ready for appends of fields like `fi`, with
+its dtype set -/
 theorem startWriting_accepted_ready (o : Store K F) (fi : FieldInfo)
     (h : (startWriting o fi).2 = none) :
-    (startWriting o fi).1.grid = some fi.grid ∧ (startWriting o fi).1.dataShape = some fi.shape ∧
-      (startWriting o fi).1.template = some fi := by
+    Ready (startWriting o fi).1 fi ∧ (startWriting o fi).1.template = some fi ∧
+      (startWriting o fi).1.dtypeSet = true := by
   revert h
-  unfold startWriting baseStart
+  unfold startWriting baseStart Ready
   cases hm : o.mode <;> cases hd : o.dataShape <;> simp [clear] <;> split_ifs <;> simp_all
 
-/-- the loop of `apply` once the output storage has been opened: every remaining item is
-appended with its time; nothing else changes -/
+theorem append_ready (o : Store K F) (fi' : FieldInfo) (t : K) (nf : F) (c : Bool)
+    (hr : Ready o fi') (hc : o.dtypeSet = true → c = true) :
+    append o fi' (some t) nf c =
+      ({ o with frames := o.frames ++ [nf], times := o.times ++ [t] }, none) := by
+  obtain ⟨h1, h2, h3⟩ := hr
+  unfold append appendCast appendData
+  cases hd : o.dtypeSet <;> cases c <;> simp_all
+
+theorem append_castfail (o : Store K F) (fi' : FieldInfo) (t : K) (nf : F)
+    (hr : Ready o fi') (hd : o.dtypeSet = true) :
+    append o fi' (some t) nf false = (o, some .type) := by
+  obtain ⟨h1, h2, h3⟩ := hr
+  unfold append appendCast
+  simp_all
+
+theorem ready_append (o : Store K F) (fi' : FieldInfo) (t : K) (nf : F) (hr : Ready o fi') :
+    Ready ({ o with frames := o.frames ++ [nf], times := o.times ++ [t] } : Store K F) fi' := hr
+
+/-- the loop of `apply` once the output storage has been opened (and numpy can cast the
+transformed data): every remaining item is appended with its time; nothing else changes -/
 theorem applyLoop_writing (s : Store K F) (hw : WF s) (fi : FieldInfo) (ht : s.template = some fi)
     (finfo : FieldInfo → FieldInfo) :
     ∀ (todo : List (Nat × F)) (o : Store K F), (∀ p ∈ todo, p.1 < s.frames.length) →
-      o.grid = some (finfo fi).grid → o.dataShape = some (finfo fi).shape →
-      o.times.length = o.frames.length →
-      ∃ o', applyLoop s finfo todo (some o) true = (some o', none) ∧
+      Ready o (finfo fi) → o.times.length = o.frames.length →
+      ∃ o', applyLoop s finfo true todo (some o) true = (some o', none) ∧
         o'.contents = o.contents ++ pairsOf s.times todo ∧ o'.mode = o.mode ∧
         o'.template = o.template ∧ o'.dataShape = o.dataShape ∧
         o'.times.length = o'.frames.length := by
   intro todo
   induction todo with
-  | nil => intro o _ _ _ hl; exact ⟨o, rfl, by simp [pairsOf], rfl, rfl, rfl, hl⟩
+  | nil => intro o _ _ hl; exact ⟨o, rfl, by simp [pairsOf], rfl, rfl, rfl, hl⟩
   | cons p todo ih =>
-    intro o hp hg hd hl
+    intro o hp hr hl
     obtain ⟨i, nf⟩ := p
     have hi : i < s.frames.length := hp (i, nf) (by simp)
     obtain ⟨fi', hfi', hgf⟩ := getField_nat s hw i hi
     rw [ht] at hfi'; cases hfi'
     obtain ⟨ti, hti⟩ : ∃ t, s.times[i]? = some t :=
       ⟨s.times[i]'(by rw [hw.1]; exact hi), List.getElem?_eq_getElem (by rw [hw.1]; exact hi)⟩
-    have hacc : (append o (finfo fi) (some ti) nf).2 = none :=
-      (append_accepted_iff o _ _ _).mpr ⟨Or.inr hg, hd⟩
-    rcases append_cases o (finfo fi) (some ti) nf with ⟨_, h1, h2, h3⟩ | ⟨he, _⟩
-    · have hready : (append o (finfo fi) (some ti) nf).1.grid = some (finfo fi).grid ∧
-          (append o (finfo fi) (some ti) nf).1.dataShape = some (finfo fi).shape ∧
-          (append o (finfo fi) (some ti) nf).1.template = o.template := by
-        unfold append appendData
-        simp [hg, hd]
-      obtain ⟨o', e1, e2, e3, e4, e5, e6⟩ := ih (append o (finfo fi) (some ti) nf).1
-        (fun q hq => hp q (by simp [hq])) hready.1 hready.2.1 (by rw [h1, h2]; simp [hl])
-      refine ⟨o', ?_, ?_, by rw [e3, h3], by rw [e4, hready.2.2], by rw [e5, hready.2.1, hd], e6⟩
-      · unfold applyLoop
-        rw [hgf, hti]
-        simp only [if_true]
-        cases hap : append o (finfo fi) (some ti) nf with
-        | mk o3 e3' =>
-          rw [hap] at hacc e1
-          simp only at hacc
-          subst hacc
-          simp only [outOrNew] at e1 ⊢
-          rw [hap]
-          exact e1
-      · rw [e2]
-        simp only [Store.contents, h1, h2, Option.getD_some, pairsOf, List.filterMap_cons, hti,
-          Option.map_some]
-        rw [List.zip_append hl]
-        simp
-    · exact absurd hacc he
+    have hap := append_ready o (finfo fi) ti nf true hr (fun _ => rfl)
+    obtain ⟨o', e1, e2, e3, e4, e5, e6⟩ := ih _ (fun q hq => hp q (by simp [hq]))
+      (ready_append o (finfo fi) ti nf hr) (by simp [hl])
+    refine ⟨o', ?_, ?_, e3, e4, e5, e6⟩
+    · unfold applyLoop
+      rw [hgf, hti]
+      simp only [if_true, outOrNew, hap]
+      exact e1
+    · rw [e2]
+      simp only [Store.contents, pairsOf, List.filterMap_cons, hti, Option.map_some]
+      rw [List.zip_append hl]
+      simp
 
 /-- **copy / apply are consistent with the stored frames.**  `newFrames[k]` is the data of the
 transformed `k`-th field (for `copy` the `k`-th frame itself), `finfo` the effect of the user
@@ -1168,19 +1225,19 @@ function on the field description.
    its pairs; accepted - `out` (truncated or not according to its mode) followed by all pairs. -/
 theorem copy_apply_consistent (s : Store K F) (hw : WF s) (finfo : FieldInfo → FieldInfo)
     (newFrames : List F) (hn : newFrames.length = s.frames.length) :
-    (s.frames = [] → ∀ out, applyTo s finfo newFrames out =
+    (s.frames = [] → ∀ out, applyTo s finfo newFrames out true =
       (some (out.getD (Store.new .truncateOnce)), none)) ∧
     (∀ fi, s.template = some fi → s.frames ≠ [] →
-      ∃ o, applyTo s finfo newFrames none = (some o, none) ∧
+      ∃ o, applyTo s finfo newFrames none true = (some o, none) ∧
         o.contents = s.times.zip newFrames ∧ o.mode = .append ∧
         o.template = some (finfo fi) ∧ o.dataShape = some (finfo fi).shape) ∧
     (∀ fi o0, s.template = some fi → s.frames ≠ [] → o0.times.length = o0.frames.length →
       ((startWriting o0 (finfo fi)).2 = none →
-        ∃ o, applyTo s finfo newFrames (some o0) = (some o, none) ∧
+        ∃ o, applyTo s finfo newFrames (some o0) true = (some o, none) ∧
           o.contents = (startWriting o0 (finfo fi)).1.contents ++ s.times.zip newFrames ∧
           o.mode = (startWriting o0 (finfo fi)).1.mode) ∧
       (∀ e, (startWriting o0 (finfo fi)).2 = some e →
-        applyTo s finfo newFrames (some o0) = (some (startWriting o0 (finfo fi)).1, some e) ∧
+        applyTo s finfo newFrames (some o0) true = (some (startWriting o0 (finfo fi)).1, some e) ∧
         (startWriting o0 (finfo fi)).1.contents = o0.contents)) := by
   have hmem : ∀ p ∈ (List.range s.times.length).zip newFrames, p.1 < s.frames.length := by
     intro p hp
@@ -1191,12 +1248,12 @@ theorem copy_apply_consistent (s : Store K F) (hw : WF s) (finfo : FieldInfo →
       o1 = outOrNew out (finfo fi) →
       o1.times.length = o1.frames.length →
       ((startWriting o1 (finfo fi)).2 = none →
-        ∃ o, applyTo s finfo newFrames out = (some o, none) ∧
+        ∃ o, applyTo s finfo newFrames out true = (some o, none) ∧
           o.contents = (startWriting o1 (finfo fi)).1.contents ++ s.times.zip newFrames ∧
           o.mode = (startWriting o1 (finfo fi)).1.mode ∧
           o.template = some (finfo fi) ∧ o.dataShape = some (finfo fi).shape) ∧
       (∀ e, (startWriting o1 (finfo fi)).2 = some e →
-        applyTo s finfo newFrames out = (some (startWriting o1 (finfo fi)).1, some e)) := by
+        applyTo s finfo newFrames out true = (some (startWriting o1 (finfo fi)).1, some e)) := by
     intro fi ht hne out o1 ho1 hl1
     have hpos : 0 < s.frames.length := List.length_pos_iff.mpr hne
     have hnf : newFrames ≠ [] := by intro h; rw [h] at hn; simp at hn; omega
@@ -1211,13 +1268,14 @@ theorem copy_apply_consistent (s : Store K F) (hw : WF s) (finfo : FieldInfo →
       ⟨s.times[0]'(by rw [hw.1]; exact hpos), List.getElem?_eq_getElem (by rw [hw.1]; exact hpos)⟩
     constructor
     · intro hacc
-      obtain ⟨g1, g2, g3⟩ := startWriting_accepted_ready o1 (finfo fi) hacc
+      obtain ⟨gr, g3, _⟩ := startWriting_accepted_ready o1 (finfo fi) hacc
+      have g2 := gr.2.2
       have hl2 : (startWriting o1 (finfo fi)).1.times.length = (startWriting o1 (finfo fi)).1.frames.length := by
         rcases startWriting_cases o1 (finfo fi) with ⟨_, _, h1, h2, _⟩ | ⟨he, _⟩
         · rw [h1, h2]; split_ifs <;> simp [hl1]
         · exact absurd hacc he
       obtain ⟨o', e1, e2, e3, e4, e5, _⟩ := applyLoop_writing s hw fi ht finfo
-        ((List.range s.times.length).zip (nf :: nfs)) (startWriting o1 (finfo fi)).1 hmem g1 g2 hl2
+        ((List.range s.times.length).zip (nf :: nfs)) (startWriting o1 (finfo fi)).1 hmem gr hl2
       refine ⟨o', ?_, by rw [e2, pairsOf_range], e3, by rw [e4, g3], by rw [e5, g2]⟩
       unfold applyTo
       -- unfold the first iteration on both sides
@@ -1237,7 +1295,7 @@ theorem copy_apply_consistent (s : Store K F) (hw : WF s) (finfo : FieldInfo →
         subst hacc
         simp only at e1 ⊢
         -- `e1` is about the loop entered with `writing = true` on `o2`: same continuation
-        cases hap : append o2 (finfo fi) (some t0) nf with
+        cases hap : append o2 (finfo fi) (some t0) nf true with
         | mk o3 e3' =>
           rw [hap] at e1
           cases e3' with
@@ -1288,74 +1346,83 @@ theorem copy_apply_consistent (s : Store K F) (hw : WF s) (finfo : FieldInfo →
       have : (sstep o0 (.start (finfo fi))).2 ≠ none := by simp [sstep, he]
       exact (rejected_keeps_contents o0 (.start (finfo fi)) this).1
 
-/-- the appends `apply` performs, as storage operations -/
-def appendOps (fi' : FieldInfo) (ps : List (K × F)) : List (SOp K F) :=
-  ps.map (fun p => .append fi' (some p.1) p.2)
+/-- the appends `apply` performs, as storage operations (`c`: numpy's cast verdict for the
+transformed data) -/
+def appendOps (fi' : FieldInfo) (c : Bool) (ps : List (K × F)) : List (SOp K F) :=
+  ps.map (fun p => .append fi' (some p.1) p.2 c)
 
 theorem srun_cons (o : Store K F) (op : SOp K F) (ops : List (SOp K F)) :
     srun o (op :: ops) = srun (sstep o op).1 ops := rfl
 
+/-- appends that numpy cannot cast are all rejected and leave the storage as it is -/
+theorem srun_castfail (fi' : FieldInfo) : ∀ (ps : List (K × F)) (o : Store K F),
+    Ready o fi' → o.dtypeSet = true → srun o (appendOps fi' false ps) = o := by
+  intro ps
+  induction ps with
+  | nil => intro o _ _; rfl
+  | cons p ps ih =>
+    intro o hr hd
+    simp only [appendOps, List.map_cons, srun_cons, sstep]
+    rw [append_castfail o fi' p.1 p.2 hr hd]
+    exact ih o hr hd
+
 /-- the loop of `apply` after the output has been opened IS a run of the storage state machine
-on the appends -/
+on the appends (all accepted if numpy can cast the data, all rejected otherwise) -/
 theorem applyLoop_writing_srun (s : Store K F) (hw : WF s) (fi : FieldInfo) (ht : s.template = some fi)
-    (finfo : FieldInfo → FieldInfo) :
+    (finfo : FieldInfo → FieldInfo) (c : Bool) :
     ∀ (todo : List (Nat × F)) (o : Store K F), (∀ p ∈ todo, p.1 < s.frames.length) →
-      o.grid = some (finfo fi).grid → o.dataShape = some (finfo fi).shape →
-      applyLoop s finfo todo (some o) true =
-        (some (srun o (appendOps (finfo fi) (pairsOf s.times todo))), none) := by
+      Ready o (finfo fi) → o.dtypeSet = true →
+      (applyLoop s finfo c todo (some o) true).1 =
+        some (srun o (appendOps (finfo fi) c (pairsOf s.times todo))) := by
   intro todo
   induction todo with
   | nil => intro o _ _ _; simp [applyLoop, pairsOf, appendOps, srun]
   | cons p todo ih =>
-    intro o hp hg hd
+    intro o hp hr hd
     obtain ⟨i, nf⟩ := p
     have hi : i < s.frames.length := hp (i, nf) (by simp)
     obtain ⟨fi', hfi', hgf⟩ := getField_nat s hw i hi
     rw [ht] at hfi'; cases hfi'
     obtain ⟨ti, hti⟩ : ∃ t, s.times[i]? = some t :=
       ⟨s.times[i]'(by rw [hw.1]; exact hi), List.getElem?_eq_getElem (by rw [hw.1]; exact hi)⟩
-    have hacc : (append o (finfo fi) (some ti) nf).2 = none :=
-      (append_accepted_iff o _ _ _).mpr ⟨Or.inr hg, hd⟩
-    have hready : (append o (finfo fi) (some ti) nf).1.grid = some (finfo fi).grid ∧
-        (append o (finfo fi) (some ti) nf).1.dataShape = some (finfo fi).shape := by
-      unfold append appendData
-      simp [hg, hd]
-    have hrec := ih (append o (finfo fi) (some ti) nf).1 (fun q hq => hp q (by simp [hq]))
-      hready.1 hready.2
-    unfold applyLoop
-    rw [hgf, hti]
-    simp only [if_true, outOrNew]
-    cases hap : append o (finfo fi) (some ti) nf with
-    | mk o3 e3 =>
-      rw [hap] at hacc hrec
-      simp only at hacc hrec
-      subst hacc
-      simp only
+    cases c with
+    | true =>
+      have hap := append_ready o (finfo fi) ti nf true hr (fun _ => rfl)
+      have hrec := ih _ (fun q hq => hp q (by simp [hq])) (ready_append o (finfo fi) ti nf hr) hd
+      unfold applyLoop
+      rw [hgf, hti]
+      simp only [if_true, outOrNew, hap]
       rw [hrec]
       simp only [pairsOf, List.filterMap_cons, hti, Option.map_some, appendOps, List.map_cons,
         srun_cons, sstep, hap]
+    | false =>
+      have hap := append_castfail o (finfo fi) ti nf hr hd
+      unfold applyLoop
+      rw [hgf, hti]
+      simp only [if_true, outOrNew, hap]
+      rw [srun_castfail (finfo fi) _ o hr hd]
 
 /-- the storage operations `apply(func, out=o0)` amounts to on `o0`: nothing for an empty
 source; otherwise `start_writing(transformed)` and, if that is accepted, one append per frame -/
-def applyOps (s : Store K F) (finfo : FieldInfo → FieldInfo) (newFrames : List F) (o0 : Store K F) :
-    List (SOp K F) :=
+def applyOps (s : Store K F) (finfo : FieldInfo → FieldInfo) (newFrames : List F) (o0 : Store K F)
+    (c : Bool) : List (SOp K F) :=
   match s.template with
   | none => []
   | some fi =>
     if s.frames.isEmpty then []
     else .start (finfo fi) ::
-      (if (startWriting o0 (finfo fi)).2 = none then appendOps (finfo fi) (s.times.zip newFrames)
+      (if (startWriting o0 (finfo fi)).2 = none then appendOps (finfo fi) c (s.times.zip newFrames)
        else [])
 
 /-- **`copy`/`apply` into an existing storage is a run of that storage's state machine** on
-`applyOps`; the error reported is the one of its `start_writing` -/
+`applyOps` -/
 theorem applyTo_some_srun (s : Store K F) (hw : WF s) (finfo : FieldInfo → FieldInfo)
-    (newFrames : List F) (hn : newFrames.length = s.frames.length) (o0 : Store K F) :
-    (applyTo s finfo newFrames (some o0)).1 = some (srun o0 (applyOps s finfo newFrames o0)) := by
+    (newFrames : List F) (hn : newFrames.length = s.frames.length) (o0 : Store K F) (c : Bool) :
+    (applyTo s finfo newFrames (some o0) c).1 = some (srun o0 (applyOps s finfo newFrames o0 c)) := by
   by_cases hne : s.frames = []
   · have ht : s.times = [] := by
       have := hw.1; rw [hne] at this; simpa using this
-    have : applyOps s finfo newFrames o0 = [] := by
+    have : applyOps s finfo newFrames o0 c = [] := by
       unfold applyOps; cases s.template <;> simp [hne]
     rw [this]
     unfold applyTo
@@ -1377,9 +1444,9 @@ theorem applyTo_some_srun (s : Store K F) (hw : WF s) (finfo : FieldInfo → Fie
     have hgf0 : getField s (0 : Int) = .ok (fi, s.frames[0]) := by simpa using hgf
     obtain ⟨t0, hti⟩ : ∃ t, s.times[0]? = some t :=
       ⟨s.times[0]'(by rw [hw.1]; exact hpos), List.getElem?_eq_getElem (by rw [hw.1]; exact hpos)⟩
-    have hops : applyOps s finfo (nf :: nfs) o0 = .start (finfo fi) ::
+    have hops : applyOps s finfo (nf :: nfs) o0 c = .start (finfo fi) ::
         (if (startWriting o0 (finfo fi)).2 = none then
-          appendOps (finfo fi) (s.times.zip (nf :: nfs)) else []) := by
+          appendOps (finfo fi) c (s.times.zip (nf :: nfs)) else []) := by
       unfold applyOps; simp [ht, hne]
     rw [hops, srun_cons]
     simp only [sstep]
@@ -1398,20 +1465,29 @@ theorem applyTo_some_srun (s : Store K F) (hw : WF s) (finfo : FieldInfo → Fie
       | none =>
         simp only [if_true]
         have hacc : (startWriting o0 (finfo fi)).2 = none := by rw [hsw]
-        obtain ⟨g1, g2, _⟩ := startWriting_accepted_ready o0 (finfo fi) hacc
-        rw [hsw] at g1 g2
-        have e1 := applyLoop_writing_srun s hw fi ht finfo
-          ((List.range s.times.length).zip (nf :: nfs)) o2 hmem g1 g2
+        obtain ⟨gr, _, gd⟩ := startWriting_accepted_ready o0 (finfo fi) hacc
+        rw [hsw] at gr gd
+        have e1 := applyLoop_writing_srun s hw fi ht finfo c
+          ((List.range s.times.length).zip (nf :: nfs)) o2 hmem gr gd
         rw [pairsOf_range] at e1
+        -- both sides: the loop entered with `writing = true` on `o2`
+        have hsame : applyLoop s finfo c ((List.range s.times.length).zip (nf :: nfs)) (some o0) false =
+            applyLoop s finfo c ((List.range s.times.length).zip (nf :: nfs)) (some o2) true := by
+          rw [hr]
+          simp only [List.zip_cons_cons]
+          conv_lhs => unfold applyLoop
+          conv_rhs => unfold applyLoop
+          simp only [Nat.cast_zero]
+          rw [hgf0, hti]
+          simp only [Bool.false_eq_true, if_false, if_true, outOrNew, hsw]
         unfold applyTo
-        rw [hr] at e1 ⊢
-        simp only [List.zip_cons_cons] at e1 ⊢
-        unfold applyLoop at e1 ⊢
-        simp only [Nat.cast_zero] at e1 ⊢
-        rw [hgf0, hti] at e1 ⊢
-        simp only [if_true, outOrNew] at e1
-        simp only [Bool.false_eq_true, if_false, outOrNew, hsw]
-        rw [e1]
+        rw [hsame]
+        cases hl : applyLoop s finfo c ((List.range s.times.length).zip (nf :: nfs)) (some o2) true with
+        | mk ol el =>
+          rw [hl] at e1
+          simp only at e1
+          subst e1
+          cases el <;> rfl
 
 end apply
 
@@ -1466,21 +1542,25 @@ end
 section
 variable [Add K] [NatCast K]
 
-theorem mapFrames_append (g : F → G) (s : Store K F) (fi : FieldInfo) (t : Option K) (f : F) :
-    append (s.mapFrames g) fi t (g f) = ((append s fi t f).1.mapFrames g, (append s fi t f).2) := by
-  unfold append appendData
-  cases hg : s.grid <;> cases hd : s.dataShape <;> cases t <;>
-    simp [Store.mapFrames, hg, hd] <;> split_ifs <;> simp [hg, hd]
+theorem mapFrames_append (g : F → G) (s : Store K F) (fi : FieldInfo) (t : Option K) (f : F)
+    (c : Bool) :
+    append (s.mapFrames g) fi t (g f) c = ((append s fi t f c).1.mapFrames g, (append s fi t f c).2) := by
+  unfold append appendCast appendData
+  by_cases hm : s.mode = Mode.readonly
+  · simp [Store.mapFrames, hm]
+  · cases hg : s.grid <;> cases hd : s.dataShape <;> cases t <;> cases hdt : s.dtypeSet <;> cases c <;>
+      simp [Store.mapFrames, hg, hd, hm, hdt] <;> (try split_ifs) <;> simp [hg, hd, hm, hdt]
 
 theorem mapFrames_outOrNew (g : F → G) (out : Option (Store K F)) (fi : FieldInfo) :
     outOrNew (out.map (Store.mapFrames g)) fi = (outOrNew out fi).mapFrames g := by
   cases out <;> simp [outOrNew, Store.mapFrames]
 
-theorem mapFrames_applyLoop (g : F → G) (s : Store K F) (finfo : FieldInfo → FieldInfo) :
+theorem mapFrames_applyLoop (g : F → G) (s : Store K F) (finfo : FieldInfo → FieldInfo) (c : Bool) :
     ∀ (todo : List (Nat × F)) (out : Option (Store K F)) (w : Bool),
-      applyLoop (s.mapFrames g) finfo (todo.map (fun p => (p.1, g p.2)))
+      applyLoop (s.mapFrames g) finfo c (todo.map (fun p => (p.1, g p.2)))
           (out.map (Store.mapFrames g)) w =
-        ((applyLoop s finfo todo out w).1.map (Store.mapFrames g), (applyLoop s finfo todo out w).2) := by
+        ((applyLoop s finfo c todo out w).1.map (Store.mapFrames g),
+         (applyLoop s finfo c todo out w).2) := by
   intro todo
   induction todo with
   | nil => intro out w; simp [applyLoop]
@@ -1506,7 +1586,7 @@ theorem mapFrames_applyLoop (g : F → G) (s : Store K F) (finfo : FieldInfo →
         | true =>
           simp only [if_true]
           rw [mapFrames_append]
-          cases hap : append (outOrNew out (finfo fi)) (finfo fi) (some t) nf with
+          cases hap : append (outOrNew out (finfo fi)) (finfo fi) (some t) nf c with
           | mk o3 e3 =>
             cases e3 with
             | some e => simp
@@ -1524,7 +1604,7 @@ theorem mapFrames_applyLoop (g : F → G) (s : Store K F) (finfo : FieldInfo →
             | none =>
               simp only
               rw [mapFrames_append]
-              cases hap : append o2 (finfo fi) (some t) nf with
+              cases hap : append o2 (finfo fi) (some t) nf c with
               | mk o3 e3 =>
                 cases e3 with
                 | some e => simp
@@ -1534,9 +1614,10 @@ theorem mapFrames_applyLoop (g : F → G) (s : Store K F) (finfo : FieldInfo →
                   simpa using this
 
 theorem mapFrames_applyTo (g : F → G) (s : Store K F) (finfo : FieldInfo → FieldInfo)
-    (newFrames : List F) (out : Option (Store K F)) :
-    applyTo (s.mapFrames g) finfo (newFrames.map g) (out.map (Store.mapFrames g)) =
-      ((applyTo s finfo newFrames out).1.map (Store.mapFrames g), (applyTo s finfo newFrames out).2) := by
+    (newFrames : List F) (out : Option (Store K F)) (c : Bool) :
+    applyTo (s.mapFrames g) finfo (newFrames.map g) (out.map (Store.mapFrames g)) c =
+      ((applyTo s finfo newFrames out c).1.map (Store.mapFrames g),
+       (applyTo s finfo newFrames out c).2) := by
   unfold applyTo
   have hz : (List.range (s.mapFrames g).times.length).zip (newFrames.map g) =
       ((List.range s.times.length).zip newFrames).map (fun p => (p.1, g p.2)) := by
@@ -1544,7 +1625,7 @@ theorem mapFrames_applyTo (g : F → G) (s : Store K F) (finfo : FieldInfo → F
     rw [List.zip_map_right]
     rfl
   rw [hz, mapFrames_applyLoop]
-  cases h : applyLoop s finfo ((List.range s.times.length).zip newFrames) out false with
+  cases h : applyLoop s finfo c ((List.range s.times.length).zip newFrames) out false with
   | mk o e =>
     cases e with
     | some err => rfl
@@ -1561,16 +1642,16 @@ theorem frames_startWriting (s : Store K F) (fi : FieldInfo) :
     · simp at h
   · rw [hf] at h; exact h
 
-theorem frames_append (s : Store K F) (fi : FieldInfo) (t : Option K) (f : F) :
-    ∀ id ∈ (append s fi t f).1.frames, id ∈ s.frames ∨ id = f := by
+theorem frames_append (s : Store K F) (fi : FieldInfo) (t : Option K) (f : F) (c : Bool) :
+    ∀ id ∈ (append s fi t f c).1.frames, id ∈ s.frames ∨ id = f := by
   intro id h
-  rcases append_cases s fi t f with ⟨_, _, hf, _⟩ | ⟨_, _, hf, _⟩
+  rcases append_cases s fi t f c with ⟨_, _, hf, _⟩ | ⟨_, _, hf, _⟩
   · rw [hf] at h; simpa using h
   · rw [hf] at h; exact Or.inl h
 
-theorem frames_applyLoop (s : Store K F) (finfo : FieldInfo → FieldInfo) :
+theorem frames_applyLoop (s : Store K F) (finfo : FieldInfo → FieldInfo) (c : Bool) :
     ∀ (todo : List (Nat × F)) (out : Option (Store K F)) (w : Bool) (o' : Store K F),
-      (applyLoop s finfo todo out w).1 = some o' →
+      (applyLoop s finfo c todo out w).1 = some o' →
       ∀ id ∈ o'.frames, (∃ o, out = some o ∧ id ∈ o.frames) ∨ id ∈ todo.map Prod.snd := by
   intro todo
   induction todo with
@@ -1621,12 +1702,12 @@ theorem frames_applyLoop (s : Store K F) (finfo : FieldInfo → FieldInfo) :
             exact Or.inl (hstart _ _ hr2 id hid)
           | none =>
             simp only at h
-            cases hap : append o2 (finfo fi) (some t) nf with
+            cases hap : append o2 (finfo fi) (some t) nf c with
             | mk o3 e3 =>
               rw [hap] at h
               have h3 : ∀ id ∈ o3.frames, (∃ o, out = some o ∧ id ∈ o.frames) ∨ id = nf := by
                 intro id hid
-                rcases frames_append o2 (finfo fi) (some t) nf id (by rw [hap]; exact hid) with h4 | h4
+                rcases frames_append o2 (finfo fi) (some t) nf c id (by rw [hap]; exact hid) with h4 | h4
                 · exact Or.inl (hstart _ _ hr2 id h4)
                 · exact Or.inr h4
               cases e3 with
@@ -1670,9 +1751,9 @@ def Op.safe : Op K → Bool
 def Op.writesTo (sid : Nat) : Op K → Bool
   | .setMode s _ => s == sid
   | .start s _ => s == sid
-  | .append s _ _ => s == sid
+  | .append s _ _ _ => s == sid
   | .clear s _ => s == sid
-  | .apply _ _ (some o) => o == sid
+  | .apply _ _ (some o) _ => o == sid
   | _ => false
 
 /-- buffers that are not owned by a live field keep their content -/
@@ -1740,7 +1821,7 @@ theorem heapExt_step (w : World K) (op : Op K) (hs : op.safe = true) : HeapExt w
     cases h : w.fields[fid]? with
     | none => exact heapExt_refl w
     | some p => exact heapExt_append _ _ [] (by simp [updStore_heap])
-  | append sid fid t =>
+  | append sid fid t c =>
     simp only [step]
     cases h : w.fields[fid]? with
     | none => exact heapExt_refl w
@@ -1815,7 +1896,7 @@ theorem heapExt_step (w : World K) (op : Op K) (hs : op.safe = true) : HeapExt w
       | ok fidx =>
         simp only
         split <;> exact heapExt_refl w
-  | apply sid f out =>
+  | apply sid f out c =>
     simp only [step]
     cases w.stores[sid]? with
     | none => exact heapExt_refl w
@@ -1942,14 +2023,14 @@ theorem inv_step (w : World K) (op : Op K) (hs : op.safe = true) (h : w.Inv) : (
     | none => exact h
     | some p =>
       exact updStore_inv w sid _ h (fun s hs id hid => h.2 s hs id (frames_startWriting s p.1 id hid))
-  | append sid fid t =>
+  | append sid fid t c =>
     simp only [step]
     cases w.fields[fid]? with
     | none => exact h
     | some p =>
       apply updStore_inv _ sid _ (inv_heap_grow w [w.deref p.2] h)
       intro s hs id hid
-      rcases frames_append s p.1 t w.heap.length id hid with h1 | h1
+      rcases frames_append s p.1 t w.heap.length c id hid with h1 | h1
       · exact private_heap_grow w _ id (h.2 s hs id h1)
       · subst h1; exact private_fresh w [w.deref p.2] h _ (by simp)
   | endW sid => exact updStore_inv w sid _ h (fun s hs id hid => h.2 s hs id hid)
@@ -2040,7 +2121,7 @@ theorem inv_step (w : World K) (op : Op K) (hs : op.safe = true) (h : w.Inv) : (
       | ok fidx =>
         simp only
         split <;> exact h
-  | apply sid f out =>
+  | apply sid f out c =>
     simp only [step]
     cases hst : w.stores[sid]? with
     | none => exact h
@@ -2053,14 +2134,14 @@ theorem inv_step (w : World K) (op : Op K) (hs : op.safe = true) (h : w.Inv) : (
         · rename_i outS houtS
           -- frames of the resulting `out`: old frames of `out` or freshly allocated buffers
           have hfr : ∀ o', (applyTo s f.info (List.range' w.heap.length
-                (applyNewVals w f s).length) outS).1 = some o' →
+                (applyNewVals w f s).length) outS c).1 = some o' →
               ∀ id ∈ o'.frames, ({ w with heap := w.heap ++ applyNewVals w f s } : World K).Private id := by
             intro o' ho' id hid
             unfold applyTo at ho'
-            have key := frames_applyLoop s f.info
+            have key := frames_applyLoop s f.info c
               ((List.range s.times.length).zip (List.range' w.heap.length
                 (applyNewVals w f s).length)) outS false
-            cases hl : applyLoop s f.info
+            cases hl : applyLoop s f.info c
               ((List.range s.times.length).zip (List.range' w.heap.length
                 (applyNewVals w f s).length)) outS false with
             | mk ol el =>
@@ -2159,7 +2240,7 @@ theorem stores_step_other (w : World K) (op : Op K) (sid : Nat) (s : Store K Nat
     cases w.fields[fid]? with
     | none => exact hs
     | some p => simp only; rw [updStore_other _ _ _ _ hw]; exact hs
-  | append sid' fid t =>
+  | append sid' fid t c =>
     simp only [Op.writesTo, beq_eq_false_iff_ne, ne_eq] at hw
     simp only [step]
     cases w.fields[fid]? with
@@ -2236,7 +2317,7 @@ theorem stores_step_other (w : World K) (op : Op K) (sid : Nat) (s : Store K Nat
       cases viewCreate s1 fid with
       | error e => exact hs
       | ok fidx => simp only; split <;> exact hs
-  | apply sid' f out =>
+  | apply sid' f out c =>
     simp only [step]
     cases w.stores[sid']? with
     | none => exact hs
@@ -2329,13 +2410,13 @@ theorem stores_length_step (w : World K) (op : Op K) (sid : Nat) (hlt : sid < w.
       cases w.fields[fid]? with
       | none => exact hlt
       | some p => simp only; rw [updStore_stores]; split <;> simp [hlt]
-    | append sid' fid t =>
+    | append sid' fid t c =>
       simp only [step]
       cases w.fields[fid]? with
       | none => exact hlt
       | some p => simp only; rw [updStore_stores]; split <;> simp [hlt]
     | clear sid' b => simp only [step]; rw [updStore_stores]; split <;> simp [hlt]
-    | apply sid' f out =>
+    | apply sid' f out c =>
       simp only [step]
       cases w.stores[sid']? with
       | none => exact hlt
@@ -2384,8 +2465,8 @@ an `append` carries the content of the source field's buffer *at this moment* -/
 def project (w : World K) (sid : Nat) : Op K → Option (SOp K (List K))
   | .setMode s m => if s = sid then some (.setMode m) else none
   | .start s fid => if s = sid then (w.fields[fid]?).map (fun p => .start p.1) else none
-  | .append s fid t =>
-    if s = sid then (w.fields[fid]?).map (fun p => .append p.1 t (w.deref p.2)) else none
+  | .append s fid t c =>
+    if s = sid then (w.fields[fid]?).map (fun p => .append p.1 t (w.deref p.2) c) else none
   | .clear s b => if s = sid then some (.clear b) else none
   | _ => none
 
@@ -2413,7 +2494,7 @@ theorem mapFrames_congr {F G : Type} (g g' : F → G) (s : Store K F) (h : ∀ i
 content of every frame, mode, shape, template - moves exactly as the storage state machine
 moves on the projected operation, or does not move at all. -/
 theorem world_refines_store (w : World K) (op : Op K) (sid : Nat) (h : w.Inv) (hsafe : op.safe = true)
-    (hna : ∀ src f, op ≠ .apply src f (some sid)) (hlt : sid < w.stores.length) :
+    (hna : ∀ src f c, op ≠ .apply src f (some sid) c) (hlt : sid < w.stores.length) :
     (step w op).1.view sid = (w.view sid).map (fun sv =>
       match project w sid op with
       | some sop => (sstep sv sop).1
@@ -2442,7 +2523,7 @@ theorem world_refines_store (w : World K) (op : Op K) (sid : Nat) (h : w.Inv) (h
         simp only [Option.map_some]
         rw [updStore_view _ _ _ s hs, hview]
         simp only [Option.map_some, sstep, mapFrames_startWriting]
-    | append sid' fid t =>
+    | append sid' fid t c =>
       have : sid' = sid := by simpa [Op.writesTo] using hw
       subst this
       simp only [step, project, if_true]
@@ -2463,7 +2544,7 @@ theorem world_refines_store (w : World K) (op : Op K) (sid : Nat) (h : w.Inv) (h
             w.deref p.2 := by
           simp [World.deref]
         have := mapFrames_append ({ w with heap := w.heap ++ [w.deref p.2] } : World K).deref
-          s p.1 t w.heap.length
+          s p.1 t w.heap.length c
         rw [hold, hnew] at this
         rw [this]
     | clear sid' b =>
@@ -2472,13 +2553,13 @@ theorem world_refines_store (w : World K) (op : Op K) (sid : Nat) (h : w.Inv) (h
       simp only [step, project, if_true]
       rw [updStore_view _ _ _ s hs, hview]
       simp [sstep, mapFrames_clear]
-    | apply src f out =>
+    | apply src f out c =>
       cases out with
       | none => simp [Op.writesTo] at hw
       | some o =>
         have : o = sid := by simpa [Op.writesTo] using hw
         subst this
-        exact absurd rfl (hna src f)
+        exact absurd rfl (hna src f c)
     | _ => simp [Op.writesTo] at hw
 
 /-- the operations storage `sid` sees along a world operation sequence -/
@@ -2495,7 +2576,7 @@ the property statement: later changes to the source field or to fields read back
 stored frames. -/
 theorem world_run_refines (ops : List (Op K)) :
     ∀ (w : World K) (sid : Nat), w.Inv → sid < w.stores.length →
-      (∀ op ∈ ops, op.safe = true ∧ ∀ src f, op ≠ .apply src f (some sid)) →
+      (∀ op ∈ ops, op.safe = true ∧ ∀ src f c, op ≠ .apply src f (some sid) c) →
       (run w ops).view sid = (w.view sid).map (fun sv => srun sv (wtrace sid w ops)) := by
   induction ops with
   | nil => intro w sid _ _ _; simp [run, wtrace, srun]
@@ -2534,9 +2615,9 @@ theorem wf_construct {F : Type} (times : List K) (frames : List F) (tm : Option 
     | none => simp at hd
     | some fi => exact ⟨fi, rfl, rfl⟩
 
-theorem wf_applyLoop {F : Type} (s : Store K F) (finfo : FieldInfo → FieldInfo) :
+theorem wf_applyLoop {F : Type} (s : Store K F) (finfo : FieldInfo → FieldInfo) (c : Bool) :
     ∀ (todo : List (Nat × F)) (out : Option (Store K F)) (w : Bool) (o' : Store K F),
-      (∀ o, out = some o → WF o) → (applyLoop s finfo todo out w).1 = some o' → WF o' := by
+      (∀ o, out = some o → WF o) → (applyLoop s finfo c todo out w).1 = some o' → WF o' := by
   intro todo
   induction todo with
   | nil =>
@@ -2578,8 +2659,8 @@ theorem wf_applyLoop {F : Type} (s : Store K F) (finfo : FieldInfo → FieldInfo
           | some e => simp only at h; cases h; exact hw2
           | none =>
             simp only at h
-            have hw3 := wf_append o2 (finfo fi) (some t) nf hw2
-            cases hap : append o2 (finfo fi) (some t) nf with
+            have hw3 := wf_append o2 (finfo fi) (some t) nf c hw2
+            cases hap : append o2 (finfo fi) (some t) nf c with
             | mk o3 e3 =>
               rw [hap] at h hw3
               cases e3 with
@@ -2589,11 +2670,11 @@ theorem wf_applyLoop {F : Type} (s : Store K F) (finfo : FieldInfo → FieldInfo
                 exact ih (some o3) true o' (by intro o ho; cases ho; exact hw3) h
 
 theorem wf_applyTo {F : Type} (s : Store K F) (finfo : FieldInfo → FieldInfo) (nf : List F)
-    (out : Option (Store K F)) (o' : Store K F) (hout : ∀ o, out = some o → WF o)
-    (h : (applyTo s finfo nf out).1 = some o') : WF o' := by
+    (out : Option (Store K F)) (c : Bool) (o' : Store K F) (hout : ∀ o, out = some o → WF o)
+    (h : (applyTo s finfo nf out c).1 = some o') : WF o' := by
   unfold applyTo at h
-  have key := wf_applyLoop s finfo ((List.range s.times.length).zip nf) out false
-  cases hl : applyLoop s finfo ((List.range s.times.length).zip nf) out false with
+  have key := wf_applyLoop s finfo c ((List.range s.times.length).zip nf) out false
+  cases hl : applyLoop s finfo c ((List.range s.times.length).zip nf) out false with
   | mk ol el =>
     rw [hl] at h key
     cases el with
@@ -2646,11 +2727,11 @@ theorem allwf_step (w : World K) (op : Op K) (h : w.AllWF) : (step w op).1.AllWF
     cases w.fields[fid]? with
     | none => exact h
     | some p => exact updStore_allwf w sid _ h (fun s hs => wf_startWriting s p.1 hs)
-  | append sid fid t =>
+  | append sid fid t c =>
     simp only [step]
     cases w.fields[fid]? with
     | none => exact h
-    | some p => exact updStore_allwf _ sid _ h (fun s hs => wf_append s p.1 t _ hs)
+    | some p => exact updStore_allwf _ sid _ h (fun s hs => wf_append s p.1 t _ c hs)
   | endW sid => exact updStore_allwf w sid _ h (fun s hs => hs)
   | clear sid b => exact updStore_allwf w sid _ h (fun s hs => wf_clear s b hs)
   | read sid i =>
@@ -2729,7 +2810,7 @@ theorem allwf_step (w : World K) (op : Op K) (h : w.AllWF) : (step w op).1.AllWF
       cases viewCreate s fid with
       | error e => exact h
       | ok fidx => simp only; split <;> exact h
-  | apply sid f out =>
+  | apply sid f out c =>
     simp only [step]
     cases hst : w.stores[sid]? with
     | none => exact h
@@ -2756,11 +2837,11 @@ theorem allwf_step (w : World K) (op : Op K) (h : w.AllWF) : (step w op).1.AllWF
                 exact h o (List.mem_of_getElem? hoid)
           split
           · rename_i o heq _
-            exact allwf_push _ o h (wf_applyTo s f.info _ outS o hout (by rw [heq]))
+            exact allwf_push _ o h (wf_applyTo s f.info _ outS c o hout (by rw [heq]))
           · rename_i o oid heq _
-            exact allwf_set _ oid o h (wf_applyTo s f.info _ outS o hout (by rw [heq]))
+            exact allwf_set _ oid o h (wf_applyTo s f.info _ outS c o hout (by rw [heq]))
           · rename_i o e oid heq _
-            exact allwf_set _ oid o h (wf_applyTo s f.info _ outS o hout (by rw [heq]))
+            exact allwf_set _ oid o h (wf_applyTo s f.info _ outS c o hout (by rw [heq]))
           · exact h
           · exact h
   | fromFields times fids m =>
@@ -2880,24 +2961,24 @@ storage is what the value-level `apply` (`copy_apply_consistent`) gives on the v
 appended frames being fresh buffers that hold the transformed data -/
 theorem apply_world (w : World K) (h : w.Inv) (sid : Nat) (f : Func K) (out : Option Nat)
     (s : Store K Nat) (hs : w.stores[sid]? = some s) (hne : out ≠ some sid)
-    (outS : Option (Store K Nat))
+    (outS : Option (Store K Nat)) (c : Bool)
     (hout : (match out with
       | none => some none
       | some o => (w.stores[o]?).map some) = some outS) (o' : Store K Nat)
-    (hok : (applyTo s f.info (List.range' w.heap.length (applyNewVals w f s).length) outS).1 = some o') :
+    (hok : (applyTo s f.info (List.range' w.heap.length (applyNewVals w f s).length) outS c).1 = some o') :
     (applyTo (s.mapFrames w.deref) f.info (applyNewVals w f s)
-        (outS.map (Store.mapFrames w.deref))).1 =
+        (outS.map (Store.mapFrames w.deref)) c).1 =
       some (o'.mapFrames ({ w with heap := w.heap ++ applyNewVals w f s } : World K).deref) ∧
     (applyTo (s.mapFrames w.deref) f.info (applyNewVals w f s)
-        (outS.map (Store.mapFrames w.deref))).2 =
-      (applyTo s f.info (List.range' w.heap.length (applyNewVals w f s).length) outS).2 ∧
+        (outS.map (Store.mapFrames w.deref)) c).2 =
+      (applyTo s f.info (List.range' w.heap.length (applyNewVals w f s).length) outS c).2 ∧
     ∃ tgt, (match out with | none => tgt = w.stores.length | some o => tgt = o) ∧
-      ((applyTo s f.info (List.range' w.heap.length (applyNewVals w f s).length) outS).2 = none ∨
+      ((applyTo s f.info (List.range' w.heap.length (applyNewVals w f s).length) outS c).2 = none ∨
         out ≠ none →
-      (step w (.apply sid f out)).1.view tgt =
+      (step w (.apply sid f out c)).1.view tgt =
         some (o'.mapFrames ({ w with heap := w.heap ++ applyNewVals w f s } : World K).deref)) := by
   have hnat := mapFrames_applyTo ({ w with heap := w.heap ++ applyNewVals w f s } : World K).deref
-    s f.info (List.range' w.heap.length (applyNewVals w f s).length) outS
+    s f.info (List.range' w.heap.length (applyNewVals w f s).length) outS c
   rw [map_deref_fresh] at hnat
   have hsv : s.mapFrames ({ w with heap := w.heap ++ applyNewVals w f s } : World K).deref =
       s.mapFrames w.deref := by
@@ -2929,14 +3010,14 @@ theorem apply_world (w : World K) (h : w.Inv) (sid : Nat) (f : Func K) (out : Op
   | none =>
     refine ⟨w.stores.length, rfl, ?_⟩
     intro hcond
-    have he : (applyTo s f.info (List.range' w.heap.length (applyNewVals w f s).length) outS).2 = none := by
+    have he : (applyTo s f.info (List.range' w.heap.length (applyNewVals w f s).length) outS c).2 = none := by
       rcases hcond with h1 | h1
       · exact h1
       · exact absurd rfl h1
     simp only at hout
     cases hout
     simp only [step, hs, reduceCtorEq, ↓reduceIte]
-    cases hap : applyTo s f.info (List.range' w.heap.length (applyNewVals w f s).length) none with
+    cases hap : applyTo s f.info (List.range' w.heap.length (applyNewVals w f s).length) none c with
     | mk o e =>
       rw [hap] at hok he
       simp only at hok he
@@ -2957,7 +3038,7 @@ theorem apply_world (w : World K) (h : w.Inv) (sid : Nat) (f : Func K) (out : Op
       simp only [step, hs]
       rw [if_neg hne]
       simp only [hoid, Option.map_some]
-      cases hap : applyTo s f.info (List.range' w.heap.length (applyNewVals w f s).length) (some o1) with
+      cases hap : applyTo s f.info (List.range' w.heap.length (applyNewVals w f s).length) (some o1) c with
       | mk o e =>
         rw [hap] at hok
         simp only at hok
@@ -2982,10 +3063,10 @@ theorem applyNewVals_length (w : World K) (f : Func K) (s : Store K Nat) (h : WF
 source, carrying the transformed data of the source's frames at this moment) -/
 def projectL (w : World K) (sid : Nat) (op : Op K) : List (SOp K (List K)) :=
   match op with
-  | .apply src f (some out) =>
+  | .apply src f (some out) c =>
     if out = sid ∧ src ≠ sid then
       match w.stores[src]?, w.view sid with
-      | some s, some ov => applyOps (s.mapFrames w.deref) f.info (applyNewVals w f s) ov
+      | some s, some ov => applyOps (s.mapFrames w.deref) f.info (applyNewVals w f s) ov c
       | _, _ => []
     else []
   | op => (project w sid op).toList
@@ -2994,8 +3075,8 @@ def projectL (w : World K) (sid : Nat) (op : Op K) : List (SOp K (List K)) :=
 theorem world_refines_store_all (w : World K) (op : Op K) (sid : Nat) (h : w.Inv) (hwf : w.AllWF)
     (hsafe : op.safe = true) (hlt : sid < w.stores.length) :
     (step w op).1.view sid = (w.view sid).map (fun sv => srun sv (projectL w sid op)) := by
-  by_cases hap : ∃ src f, op = .apply src f (some sid)
-  · obtain ⟨src, f, rfl⟩ := hap
+  by_cases hap : ∃ src f c, op = .apply src f (some sid) c
+  · obtain ⟨src, f, c, rfl⟩ := hap
     obtain ⟨o1, ho1⟩ : ∃ s, w.stores[sid]? = some s := ⟨w.stores[sid], List.getElem?_eq_getElem hlt⟩
     have hview : w.view sid = some (o1.mapFrames w.deref) := by simp [World.view, ho1]
     by_cases hsrc : src = sid
@@ -3008,34 +3089,34 @@ theorem world_refines_store_all (w : World K) (op : Op K) (sid : Nat) (h : w.Inv
         have hlen := applyNewVals_length w f s hws
         -- id level: the result of `applyTo` is a run of `out`'s state machine
         have hid := applyTo_some_srun s hws f.info
-          (List.range' w.heap.length (applyNewVals w f s).length) (by simp [hlen]) o1
+          (List.range' w.heap.length (applyNewVals w f s).length) (by simp [hlen]) o1 c
         have hne : (some sid : Option Nat) ≠ some src := by
           intro h0; cases h0; exact hsrc rfl
-        obtain ⟨e1, _, tgt, htgt, e3⟩ := apply_world w h src f (some sid) s hs hne (some o1)
+        obtain ⟨e1, _, tgt, htgt, e3⟩ := apply_world w h src f (some sid) s hs hne (some o1) c
           (by simp [ho1]) _ hid
         simp only at htgt
         subst htgt
         rw [e3 (Or.inr (by simp))]
         -- value level: the same run on the views
         have hval := applyTo_some_srun (s.mapFrames w.deref) (wf_mapFrames _ s hws) f.info
-          (applyNewVals w f s) (by simp [Store.mapFrames, hlen]) (o1.mapFrames w.deref)
+          (applyNewVals w f s) (by simp [Store.mapFrames, hlen]) (o1.mapFrames w.deref) c
         simp only [Option.map_some] at e1
         rw [hval] at e1
         rw [hview]
         simp only [Option.map_some, projectL, hs, hview]
         rw [if_pos ⟨trivial, hsrc⟩]
         exact e1.symm
-  · have hna : ∀ src f, op ≠ .apply src f (some sid) := fun src f h0 => hap ⟨src, f, h0⟩
+  · have hna : ∀ src f c, op ≠ .apply src f (some sid) c := fun src f c h0 => hap ⟨src, f, c, h0⟩
     rw [world_refines_store w op sid h hsafe hna hlt]
     congr 1
     funext sv
     have hp : projectL w sid op = (project w sid op).toList := by
       cases op with
-      | apply src f out =>
+      | apply src f out c =>
         cases out with
         | none => rfl
         | some o =>
-          have : o ≠ sid := by intro h0; subst h0; exact hna src f rfl
+          have : o ≠ sid := by intro h0; subst h0; exact hna src f c rfl
           simp [projectL, project, this]
       | _ => rfl
     rw [hp]
@@ -3205,24 +3286,24 @@ def exColl : FieldInfo :=
 appends and a field read back is overwritten too; all three appended snapshots survive, in
 order, and the second session did not truncate -/
 def exOps : List (Op Rat) :=
-  [.newField exInfo [1, 2], .newStore .truncateOnce, .start 0 0, .append 0 0 (some 0),
-   .setField 0 [5, 5], .append 0 0 none, .endW 0, .read 0 0, .setField 1 [9, 9],
-   .start 0 0, .append 0 0 (some (1/2)), .setField 0 [7, 7]]
+  [.newField exInfo [1, 2], .newStore .truncateOnce, .start 0 0, .append 0 0 (some 0) true,
+   .setField 0 [5, 5], .append 0 0 none true, .endW 0, .read 0 0, .setField 1 [9, 9],
+   .start 0 0, .append 0 0 (some (1/2)) true, .setField 0 [7, 7]]
 
 example : ((run World.empty exOps).view 0).map (·.contents) =
     some [(0, [1, 2]), (1, [5, 5]), (1/2, [5, 5])] := by decide +kernel
 
 example : ((run World.empty exOps).view 0).map (·.mode) = some Mode.append := by decide +kernel
 
-example : ∀ op ∈ exOps, op.safe = true ∧ ∀ src f, op ≠ .apply src f (some 0) := by
+example : ∀ op ∈ exOps, op.safe = true ∧ ∀ src f c, op ≠ .apply src f (some 0) c := by
   intro op hop
   simp only [exOps, List.mem_cons, List.not_mem_nil, or_false] at hop
   rcases hop with rfl | rfl | rfl | rfl | rfl | rfl | rfl | rfl | rfl | rfl | rfl | rfl <;>
-    exact ⟨rfl, fun _ _ h => by cases h⟩
+    exact ⟨rfl, fun _ _ _ h => by cases h⟩
 
 /-- `truncate`: the second session drops the first one -/
 example : ((run World.empty ([.newField exInfo [1, 2], .newStore .truncate, .start 0 0,
-    .append 0 0 (some 0), .append 0 0 (some 1), .start 0 0, .append 0 0 (some 3)] : List (Op Rat))).view 0).map
+    .append 0 0 (some 0) true, .append 0 0 (some 1) true, .start 0 0, .append 0 0 (some 3) true] : List (Op Rat))).view 0).map
     (·.contents) = some [(3, [1, 2])] := by decide +kernel
 
 /-- the hypothesis `safe` of `frames_immutable` is needed: a storage built by `from_fields`
@@ -3234,32 +3315,43 @@ example : ((run World.empty ([.newField exInfo [1, 2], .fromFields [0] [0] .appe
 /-- `extract_time_range` shares the frames of its source: a direct write into a frame of the
 extracted storage is visible in the source (documented: "might return a view") -/
 example : ((run World.empty ([.newField exInfo [1, 2], .newStore .truncateOnce, .start 0 0,
-    .append 0 0 (some 0), .append 0 0 (some 1), .extractTimeRange 0 (.pair (some 1) (some 5)),
+    .append 0 0 (some 0) true, .append 0 0 (some 1) true, .extractTimeRange 0 (.pair (some 1) (some 5)),
     .poke 1 0 [4, 4]] : List (Op Rat))).view 0).map (·.contents) = some [(0, [1, 2]), (1, [4, 4])] := by
   decide +kernel
 
 /-- ... whereas `extract_field`, `copy` and `apply` hold their own copies -/
 example : ((run World.empty ([.newField exColl [1, 2, 3, 4, 5, 6], .newStore .truncateOnce, .start 0 0,
-    .append 0 0 (some 0), .extractField 0 (.name "v") none, .apply 0 (.scale 2) none, .poke 1 0 [0, 0, 0, 0],
+    .append 0 0 (some 0) true, .extractField 0 (.name "v") none, .apply 0 (.scale 2) none true, .poke 1 0 [0, 0, 0, 0],
     .poke 2 0 [0, 0, 0, 0, 0, 0]] : List (Op Rat))).view 0).map (·.contents) =
     some [(0, [1, 2, 3, 4, 5, 6])] := by decide +kernel
 
 example : ((run World.empty ([.newField exColl [1, 2, 3, 4, 5, 6], .newStore .truncateOnce, .start 0 0,
-    .append 0 0 (some 0), .extractField 0 (.name "v") none, .apply 0 (.scale 2) none] :
+    .append 0 0 (some 0) true, .extractField 0 (.name "v") none, .apply 0 (.scale 2) none true] :
     List (Op Rat))).view 1).map (·.contents) = some [(0, [3, 4, 5, 6])] := by decide +kernel
 
 example : ((run World.empty ([.newField exColl [1, 2, 3, 4, 5, 6], .newStore .truncateOnce, .start 0 0,
-    .append 0 0 (some 0), .extractField 0 (.name "v") none, .apply 0 (.scale 2) none] :
+    .append 0 0 (some 0) true, .extractField 0 (.name "v") none, .apply 0 (.scale 2) none true] :
     List (Op Rat))).view 2).map (·.contents) = some [(0, [2, 4, 6, 8, 10, 12])] := by decide +kernel
 
-/-- the readonly counterexample as a history: the storage is set to `readonly` after a session
-and still accepts `append` (`start_writing` is rejected) -/
+/-- readonly as a history (code after fd5b417): the storage is set to `readonly` after a session;
+`start_writing` AND `append` are rejected with `RuntimeError`, nothing is added -/
 example : (step (run World.empty ([.newField exInfo [1, 2], .newStore .truncateOnce, .start 0 0,
-    .append 0 0 (some 0), .setMode 0 .readonly, .append 0 0 (some 1)] : List (Op Rat))) (.start 0 0)).2.toOption.isNone
+    .append 0 0 (some 0) true, .setMode 0 .readonly] : List (Op Rat))) (.start 0 0)).2.toOption.isNone
+    = true ∧
+    (step (run World.empty ([.newField exInfo [1, 2], .newStore .truncateOnce, .start 0 0,
+    .append 0 0 (some 0) true, .setMode 0 .readonly] : List (Op Rat))) (.append 0 0 (some 1) true)).2.toOption.isNone
     = true ∧
     ((run World.empty ([.newField exInfo [1, 2], .newStore .truncateOnce, .start 0 0,
-    .append 0 0 (some 0), .setMode 0 .readonly, .append 0 0 (some 1)] : List (Op Rat))).view 0).map
-    (·.contents) = some [(0, [1, 2]), (1, [1, 2])] := by decide +kernel
+    .append 0 0 (some 0) true, .setMode 0 .readonly, .append 0 0 (some 1) true, .start 0 0,
+    .append 0 0 none true] : List (Op Rat))).view 0).map
+    (·.contents) = some [(0, [1, 2])] := by decide +kernel
+
+/-- the dtype rule: data numpy cannot cast to the dtype of the storage is rejected (`TypeError`)
+once a session has set the dtype; before any session (`_dtype is None`) the rule is not consulted
+and the missing data shape decides -/
+example : ((run World.empty ([.newField exInfo [1, 2], .newStore .truncateOnce, .start 0 0,
+    .append 0 0 (some 0) false, .append 0 0 (some 1) true] : List (Op Rat))).view 0).map
+    (·.contents) = some [(1, [1, 2])] := by decide +kernel
 
 /-- searchsorted on sorted times with ties, and on an unsorted list (value of numpy 2.5.3) -/
 example : (bisectLeft ([0, 1, 1, 2, 5] : List Rat) 1, bisectRight ([0, 1, 1, 2, 5] : List Rat) 1) = (1, 3) := by
@@ -3272,8 +3364,8 @@ example : ([0, 1, 1, 2, 5] : List Rat).Pairwise (· ≤ ·) := by decide +kernel
 /-- `from_collection` of a scalar and a vector time series with the same times: the frames are
 the concatenated member data, the template is a collection with the members' labels -/
 example : ((run World.empty ([.newField exInfo [1, 2], .newField ⟨0, 2, [1, 2], 1, some "w", []⟩ [7, 8],
-    .newStore .truncateOnce, .newStore .append, .start 0 0, .start 1 1, .append 0 0 (some 0),
-    .append 1 1 (some 0), .setField 0 [3, 4], .append 0 0 (some 2), .append 1 1 (some 2),
+    .newStore .truncateOnce, .newStore .append, .start 0 0, .start 1 1, .append 0 0 (some 0) true,
+    .append 1 1 (some 0) true, .setField 0 [3, 4], .append 0 0 (some 2) true, .append 1 1 (some 2) true,
     .fromCollection [0, 1, 0] (some "L") (1/100000) (1/100000000)] : List (Op Rat))).view 2).map
     (fun s => (s.contents, s.template.map (fun t => (t.shape, t.members.map (·.label))))) =
     some ([(0, [1, 2, 7, 8, 1, 2]), (2, [3, 4, 7, 8, 3, 4])],
